@@ -647,7 +647,7 @@ func (w *World) modTarget(env *CEnv, e *CExpr) []modTarget {
 			case "elems":
 				x := w.eval(env, e.Args[1])
 				et := x.Typ.Underlying().(*types.Slice).Elem()
-				return []modTarget{{key: w.elemsKey(w.sortOf(et)), idx: sarr(x.T)}}
+				return []modTarget{{key: w.elemsKeyT(et), idx: sarr(x.T)}}
 			case "mapOf":
 				x := w.eval(env, e.Args[1])
 				mt := x.Typ.Underlying().(*types.Map)
@@ -664,7 +664,7 @@ func (w *World) modTarget(env *CEnv, e *CExpr) []modTarget {
 				if fi < 0 {
 					unsupported("each(): no field %s", fname)
 				}
-				ek := w.elemsKey(w.sortOf(et))
+				ek := w.elemsKeyT(et)
 				arr := sel(w.hget(env.state(), ek), sarr(x.T))
 				return []modTarget{{key: w.fieldKey(p.Elem(), fi), member: func(q Term) Term {
 					return Term{fmt.Sprintf("(exists ((ei! Int)) (and (<= 0 ei!) (< ei! %s) (= (select %s (+ %s ei!)) %s)))", slen(x.T).S, arr.S, soff(x.T).S, q.S), SBool}
@@ -948,7 +948,7 @@ func (w *World) execAppend(fr *Frame, st *State, c *ssa.CallCommon, s, t *Val) *
 	if _, isStr := c.Args[1].Type().Underlying().(*types.Basic); isStr {
 		unsupported("append of string to []byte in %s", fr.fn.Name())
 	}
-	key := w.elemsKey(es)
+	key := w.elemsKeyT(sliceT.Elem())
 	E := w.hget(st, key)
 	n1 := w.sc.bind("app.n1", slen(s.T))
 	n2 := w.sc.bind("app.n2", slen(t.T))
@@ -1010,7 +1010,7 @@ func (w *World) execCopy(fr *Frame, st *State, c *ssa.CallCommon, d, s *Val) *Va
 		unsupported("copy from string in %s", fr.fn.Name())
 	}
 	es := w.sortOf(sliceT.Elem())
-	key := w.elemsKey(es)
+	key := w.elemsKeyT(sliceT.Elem())
 	E := w.hget(st, key)
 	n := w.sc.bind("copy.n", ite(le(slen(d.T), slen(s.T)), slen(d.T), slen(s.T)))
 	dArr := w.sc.bind("copy.dst", sel(E, sarr(d.T)))
